@@ -8,10 +8,12 @@
     * whether a NULL data pointer is dereferenced,
     * the return value (exact, one of a few, or undefined = depends on bytes outside the block),
     * the abstract handle state afterwards, and `isQuery`.
-  Bug for bug: `SFC_GET_LIB_VERSION`/`SFC_GET_LOG_INFO` call strlen() after an snprintf of size 0,
-  `broadcast_var_set`/`cart_var_set` read the length field before comparing sizes, `psf_strlcpy_crlf`
-  looks at src[1] when src[0] is the last byte, and `psf_calc_signal_max` restores the position with a
-  read/write-mode seek.  Core Lean only.
+  The model follows the code as it is now.  Four rules were different before commits ff9108b, dc376ca,
+  8501a42 and 604e547 (strlen() after an snprintf of size 0; the length field of `broadcast_var_set` /
+  `cart_var_set` read before datasize was compared; `psf_strlcpy_crlf` looking at src[1] when src[0] is the
+  last byte; `psf_calc_signal_max` restoring the position with a read/write-mode seek).  They are kept at
+  the end of this file under `old…` names, used by nothing but the history theorems of SfProps/C17.lean.
+  Core Lean only.
 -/
 import SfModel.Basic
 namespace Sf.Command
@@ -138,13 +140,11 @@ def firstNul (m : Nat → Nat) : Nat → Nat → Nat
 
 /-- `psf_strlcpy_crlf (dest, src, destmax, srcmax)`: `n` source bytes are left, the next one is at
     offset `i`, `room` = destend - dest.  Returns the exclusive end of the source region examined.
-    The test `(src[0]=='\r' && src[1]=='\n') || (src[0]=='\n' && src[1]=='\r')` looks at src[1]
-    whenever src[0] is CR or LF — also when src[0] is the last byte (n = 1). -/
+    The pair test `src + 1 < srcend && ((src[0]=='\r' && src[1]=='\n') || (src[0]=='\n' && src[1]=='\r'))`
+    looks at src[1] only when src[0] is CR or LF *and* another byte is left (8501a42). -/
 def crlfEnd (m : Nat → Nat) : Nat → Nat → Nat → Nat
   | 0, i, _ => i
-  | 1, i, room =>
-    if room = 0 then i
-    else if m i = 13 ∨ m i = 10 then i + 2 else i + 1
+  | 1, i, room => if room = 0 then i else i + 1
   | n + 2, i, room =>
     if room = 0 then i
     else if m i = 13 ∨ m i = 10 then
@@ -170,37 +170,31 @@ def canRead (h : H) : Bool := h.mode = .r ∨ h.mode = .rw
 /-- the header is rewritten (psf->write_header): bytes of the file may change -/
 def rewriteHeader (h : H) : H := { h with fileEpoch := h.fileEpoch + 1 }
 
-/-- `psf_calc_signal_max` / `psf_calc_max_all_channels` on a seekable handle: the position is saved
-    with `sf_seek (0, SEEK_CUR)` and restored with `sf_seek (position, SEEK_SET)`.  In read/write mode
-    the first call already seeks *both* cursors to the write cursor. -/
-def afterCalc (h : H) : H :=
-  match h.mode with
-  | .rw => { h with readCur := h.writeCur }
-  | _ => h
-
-/-- snprintf (data, size, "%s", s) ; return strlen (data) — with strlen(s) = `l` -/
+/-- `if (data == NULL) …; if (datasize < 1) return 0; snprintf (data, size, "%s", s); return strlen (data)`
+    — with strlen(s) = `l` (ff9108b added the datasize test) -/
 def stringOut (l size : Nat) (data : Option Mem) (h : Option H) (errNull : Option Nat) (retNull : Int) : Res :=
   match data with
   | none => { ret := .exact retNull, err := errNull, h' := h }
-  | some m =>
-    if size = 0 then
-      -- nothing is written; strlen walks the caller's memory
-      { reads := [(0, firstNul m.byte m.len 0 + 1)], ret := .undef, h' := h }
+  | some _ =>
+    if size = 0 then { ret := .exact 0, h' := h }
     else
       let k := min l (size - 1)
       { writes := [(0, k + 1)], reads := [(0, k + 1)], ret := .exact k, err := some 0, h' := h }
 
-/-- `broadcast_var_set` / `cart_var_set` -/
+/-- `broadcast_var_set` / `cart_var_set`: `datasize < offsetof (variable part) || min_size (info) > datasize`
+    — the length field is read only when datasize reaches past it (dc376ca) -/
 def varSet (sizeOff fixed cap eSize eBig : Nat) (h : H) (size : Nat) (data : Option Mem) (h2 : H) : Res :=
   match data with
   | none => { ret := .exact 0, err := some 0, h' := some h }
   | some m =>
-    let n := rd32 m.byte sizeOff                     -- read before datasize is compared with anything
-    if fixed + n > size then { reads := [(sizeOff, sizeOff + 4)], ret := .exact 0, err := some eSize, h' := some h }
-    else if size ≥ cap then { reads := [(sizeOff, sizeOff + 4)], ret := .exact 0, err := some eBig, h' := some h }
+    if size < fixed then { ret := .exact 0, err := some eSize, h' := some h }
     else
-      { reads := [(sizeOff, sizeOff + 4), (0, fixed), (fixed, crlfEnd m.byte (size - fixed) fixed (cap - fixed - 2))],
-        ret := .exact 1, h' := some (rewriteHeader h2) }      -- write_header may leave an error code behind
+      let n := rd32 m.byte sizeOff
+      if fixed + n > size then { reads := [(sizeOff, sizeOff + 4)], ret := .exact 0, err := some eSize, h' := some h }
+      else if size ≥ cap then { reads := [(sizeOff, sizeOff + 4)], ret := .exact 0, err := some eBig, h' := some h }
+      else
+        { reads := [(sizeOff, sizeOff + 4), (0, fixed), (fixed, crlfEnd m.byte (size - fixed) fixed (cap - fixed - 2))],
+          ret := .exact 1, h' := some (rewriteHeader h2) }      -- write_header may leave an error code behind
 
 def varGet (stored : Option Nat) (h : H) (size : Nat) (data : Option Mem) : Res :=
   match data with
@@ -372,7 +366,7 @@ def withHandle (h : H) (cmd : Int) (size : Nat) (data : Option Mem) : Res :=
     { ret := .exact (b2i h.normDouble), err := some 0, h' := sh }
   | .k1014 =>
     -- may run psf_calc_signal_max the first time it is switched on
-    { ret := .exact (b2i h.floatIntMult), h' := some { (if size ≠ 0 ∧ h.seekable ∧ canRead h then afterCalc h else h) with floatIntMult := decide (size ≠ 0) } }
+    { ret := .exact (b2i h.floatIntMult), h' := some { h with floatIntMult := decide (size ≠ 0) } }
   | .k1015 =>
     { ret := .exact (b2i h.scaleIntFloat), err := some 0, h' := some { h with scaleIntFloat := decide (size ≠ 0) } }
   | .k1050 =>
@@ -388,12 +382,12 @@ def withHandle (h : H) (cmd : Int) (size : Nat) (data : Option Mem) : Res :=
     stringOut h.logLen size data sh (some 0) eBadParam
   | .k1040 =>
     guardEq szDouble size data sh eBadParam (some eBadParam) fun _ =>
-      { writes := [(0, szDouble)], ret := .exact 0, h' := some (if h.seekable ∧ canRead h then afterCalc h else h) }
+      { writes := [(0, szDouble)], ret := .exact 0, h' := sh }
   | .k1042 =>
     guardEq (szDouble * h.channels) size data sh eBadParam (some eBadParam) fun _ =>
       if ¬ h.seekable then { ret := .exact eNotSeekable, err := some eNotSeekable, h' := sh }
       else if ¬ canRead h then { ret := .exact eUnimplemented, err := some eUnimplemented, h' := sh }
-      else { writes := [(0, szDouble * h.channels)], ret := .exact 0, h' := some (afterCalc h) }
+      else { writes := [(0, szDouble * h.channels)], ret := .exact 0, h' := sh }
   | .k1044 =>
     guardEq szDouble size data sh 0 (some eBadParam) fun _ =>
       if h.hasPeak then { writes := [(0, szDouble)], ret := .exact 1, err := some 0, h' := sh }
@@ -543,53 +537,51 @@ def Res.terminates (r : Res) (size : Nat) : Bool :=
   | [(0, hi)], .exact k => decide (hi = k.toNat + 1 ∧ hi ≤ size ∧ 0 ≤ k)
   | _, _ => false
 
-/-! ## known-finding classes (decidable; hypotheses of the `_partial` theorems in SfProps/C17.lean) -/
+/-! ## the rules before the four repairs (history; nothing above uses them) -/
 
-/-- the handle lets SFC_SET_BROADCAST_INFO through to `broadcast_var_set` -/
-def reachesBextSet (h : Option H) : Bool :=
-  match h with
-  | none => false
-  | some h => (h.container = cWAV ∨ h.container = cWAVEX ∨ h.container = cRF64) ∧ writable h ∧ ¬ (h.bext = none ∧ h.haveWritten)
-
-def reachesCartSet (h : Option H) : Bool :=
-  match h with
-  | none => false
-  | some h => (h.container = cWAV ∨ h.container = cRF64) ∧ writable h ∧ ¬ (h.cart = none ∧ h.haveWritten)
-
-/-- KF-C17-strlen0: a string command with datasize 0 and a non-NULL buffer -/
-def kfStrlen0 (cmd : Int) (size : Nat) (data : Option Mem) : Bool :=
-  isStringCmd cmd && decide (size = 0) && data.isSome
-
-/-- KF-C17-len-before-check: `coding_history_size` / `tag_text_size` is read although datasize does not reach it -/
-def kfLenBeforeCheck (h : Option H) (cmd : Int) (size : Nat) (data : Option Mem) : Bool :=
-  data.isSome && ((decide (cmd = 0x10F1) && reachesBextSet h && decide (size < bextFixed)) ||
-                  (decide (cmd = 0x1400) && reachesCartSet h && decide (size < cartFixed)))
-
-def isCrLf (b : Nat) : Bool := b = 13 ∨ b = 10
-
-/-- KF-C17-crlf-last: the variable part is copied with `psf_strlcpy_crlf` and the last byte inside datasize is CR or LF -/
-def kfCrlfLast (h : Option H) (cmd : Int) (size : Nat) (data : Option Mem) : Bool :=
+/-- before ff9108b: `snprintf (data, size, …) ; return strlen (data)` also for size 0 — nothing is written and
+    strlen walks the caller's memory -/
+def oldStringOut (l size : Nat) (data : Option Mem) (h : Option H) (errNull : Option Nat) (retNull : Int) : Res :=
   match data with
-  | none => false
+  | none => { ret := .exact retNull, err := errNull, h' := h }
   | some m =>
-    (decide (cmd = 0x10F1) && reachesBextSet h && decide (bextFixed < size) && isCrLf (m.byte (size - 1))) ||
-    (decide (cmd = 0x1400) && reachesCartSet h && decide (cartFixed < size) && isCrLf (m.byte (size - 1)))
+    if size = 0 then { reads := [(0, firstNul m.byte m.len 0 + 1)], ret := .undef, h' := h }
+    else
+      let k := min l (size - 1)
+      { writes := [(0, k + 1)], reads := [(0, k + 1)], ret := .exact k, err := some 0, h' := h }
 
-def isCalcCmd (cmd : Int) : Bool := cmd = 0x1040 ∨ cmd = 0x1041 ∨ cmd = 0x1042 ∨ cmd = 0x1043
+/-- before 8501a42: src[1] is looked at whenever src[0] is CR or LF, also when src[0] is the last byte (n = 1) -/
+def oldCrlfEnd (m : Nat → Nat) : Nat → Nat → Nat → Nat
+  | 0, i, _ => i
+  | 1, i, room =>
+    if room = 0 then i
+    else if m i = 13 ∨ m i = 10 then i + 2 else i + 1
+  | n + 2, i, room =>
+    if room = 0 then i
+    else if m i = 13 ∨ m i = 10 then
+      if (m i = 13 ∧ m (i + 1) = 10) ∨ (m i = 10 ∧ m (i + 1) = 13) then
+        max (i + 2) (oldCrlfEnd m n (i + 2) (room - 2))
+      else max (i + 2) (oldCrlfEnd m (n + 1) (i + 1) (room - 2))
+    else max (i + 1) (oldCrlfEnd m (n + 1) (i + 1) (room - 1))
 
-/-- KF-C17-calc-rdwr: SFC_CALC_* that gets past its guard on a seekable read/write handle whose cursors differ -/
-def kfCalcRdwr (h : Option H) (cmd : Int) (size : Nat) (data : Option Mem) : Bool :=
-  match h with
-  | none => false
-  | some h =>
-    isCalcCmd cmd && data.isSome && decide (h.mode = .rw) && h.seekable && decide (h.readCur ≠ h.writeCur) &&
-    decide (size = if cmd = 0x1040 ∨ cmd = 0x1041 then szDouble else szDouble * h.channels)
+/-- before dc376ca (and 8501a42): the length field is read before datasize is compared with anything -/
+def oldVarSet (sizeOff fixed cap eSize eBig : Nat) (h : H) (size : Nat) (data : Option Mem) (h2 : H) : Res :=
+  match data with
+  | none => { ret := .exact 0, err := some 0, h' := some h }
+  | some m =>
+    let n := rd32 m.byte sizeOff
+    if fixed + n > size then { reads := [(sizeOff, sizeOff + 4)], ret := .exact 0, err := some eSize, h' := some h }
+    else if size ≥ cap then { reads := [(sizeOff, sizeOff + 4)], ret := .exact 0, err := some eBig, h' := some h }
+    else
+      { reads := [(sizeOff, sizeOff + 4), (0, fixed), (fixed, oldCrlfEnd m.byte (size - fixed) fixed (cap - fixed - 2))],
+        ret := .exact 1, h' := some (rewriteHeader h2) }
 
-def kfName (h : Option H) (cmd : Int) (size : Nat) (data : Option Mem) : String :=
-  if kfStrlen0 cmd size data then "strlen0"
-  else if kfLenBeforeCheck h cmd size data then "len-before-check"
-  else if kfCrlfLast h cmd size data then "crlf-last"
-  else if kfCalcRdwr h cmd size data then "calc-rdwr"
-  else "-"
+/-- before 604e547: `psf_calc_signal_max` / `psf_calc_max_all_channels` saved the position with
+    `sf_seek (0, SEEK_CUR)`, which in read/write mode seeks *both* cursors to the write cursor, and restored
+    it with `sf_seek (position, SEEK_SET)` -/
+def oldAfterCalc (h : H) : H :=
+  match h.mode with
+  | .rw => { h with readCur := h.writeCur }
+  | _ => h
 
 end Sf.Command
